@@ -44,6 +44,7 @@ func rssOf(pid int) int64 {
 }
 
 type execOpts struct {
+	noIso  bool
 	tape   bool
 	events string
 	procs  int
@@ -140,7 +141,103 @@ wait:
 		return out
 	}
 	res.Violations = append(res.Violations, viol...)
+	if s.Prop == "C11" && len(res.Violations) == 0 && !o.noIso {
+		if v, infra := b.isolatedReferences(base, scnPath, s, &res); infra != "" {
+			out.infra = infra
+		} else if v != nil {
+			res.Violations = append(res.Violations, *v)
+		}
+	}
 	return out
+}
+
+var hashParts = []string{"parse outcome", "reported errors", "tree after parsing"}
+
+// isolatedReferences executes every pipeline of a C11 scenario ALONE in a fresh
+// (plain, non-race) process and compares what it observed with what the same
+// pipeline observed in the concurrent run. The in-process reference pass cannot
+// see process-global residue that it inherits itself (DESIGN.md §4.1).
+func (b *build) isolatedReferences(base, scnPath string, s *scn.Scenario, res *scn.Result) (*scn.Violation, string) {
+	n := len(res.PipeHashes)
+	if n > 10 {
+		n = 10
+	}
+	for k := 0; k < n; k++ {
+		if res.PipeHashes[k] == "" {
+			continue
+		}
+		isoPath := base + ".iso.json"
+		os.Remove(isoPath)
+		cmd := exec.Command(b.simref, "-scn", scnPath, "-out", isoPath, "-iso", strconv.Itoa(k))
+		cmd.Env = append(os.Environ(), "GOTRACEBACK=single")
+		done := make(chan error, 1)
+		if err := cmd.Start(); err != nil {
+			return nil, "cannot start simref: " + err.Error()
+		}
+		go func() { done <- cmd.Wait() }()
+		select {
+		case <-done:
+		case <-time.After(runWallLimit):
+			cmd.Process.Kill()
+			<-done
+			return nil, "infra_timeout: isolated reference exceeded " + runWallLimit.String()
+		}
+		raw, err := os.ReadFile(isoPath)
+		if err != nil {
+			return nil, "simref produced no result for pipeline " + strconv.Itoa(k)
+		}
+		var iso scn.Result
+		if err := json.Unmarshal(raw, &iso); err != nil || len(iso.PipeHashes) != 1 {
+			return nil, "unreadable simref result"
+		}
+		if iso.Infra != "" {
+			return nil, "simref: " + iso.Infra
+		}
+		res.IsoChecked++
+		if iso.PipeHashes[0] == res.PipeHashes[k] {
+			continue
+		}
+		got, want := strings.Split(res.PipeHashes[k], ","), strings.Split(iso.PipeHashes[0], ",")
+		what := "number of observations"
+		if len(got) == len(want) {
+			for i := range got {
+				if got[i] != want[i] {
+					switch {
+					case i < 3:
+						what = hashParts[i]
+					case i >= len(got)-3:
+						what = []string{"final full dump", "tree at pipeline end", "error objects at pipeline end"}[i-(len(got)-3)]
+					default:
+						what = "operation " + strconv.Itoa(i-3)
+					}
+					break
+				}
+			}
+		}
+		pl := flattenPipes(s)[k]
+		in := s.Inputs[pl.Input]
+		opk := ""
+		if strings.HasPrefix(what, "operation ") {
+			i, _ := strconv.Atoi(strings.TrimPrefix(what, "operation "))
+			if i < len(pl.Ops) {
+				opk = pl.Ops[i].Kind
+				what += " (" + opk + ")"
+			}
+		}
+		sig := "isolated:" + strings.Fields(what)[0]
+		if opk != "" {
+			sig = "isolated:op-" + opk
+		}
+		return &scn.Violation{Oracle: "O1-equals-alone", Sig: sig, Detail: fmt.Sprintf("pipeline %d (input %s, version %q): %s differs between the simulated concurrent run and the same pipeline executed ALONE in a fresh process; the in-process reference pass agreed with the concurrent run, so state left behind in the process by other work changes this result. alone: %s", k, in.Name, in.Version, what, strings.Join(iso.Trace, " | "))}, ""
+	}
+	return nil, ""
+}
+
+func flattenPipes(s *scn.Scenario) (out []scn.Pipeline) {
+	for _, t := range s.Tasks {
+		out = append(out, t.Pipelines...)
+	}
+	return
 }
 
 func tail(s string, n int) string {
